@@ -7,6 +7,12 @@ package main
 // known plaintext; the first record of that write is captured from the wire. The server must read
 // everything, and an echo in the other direction must work. Non-AEAD suites are included: there
 // GetOutKeystream must fail and leave the connection usable.
+//
+// After that first (call, write) round the same connection runs up to four more rounds
+// `GetOutKeystream(n_i)` -> write -> peer reads, with n_i equal to the first length or different:
+// the keystream must track the sequence number (every round is checked against the wire bytes of
+// *its* record). For these rounds only the first 80 bytes of keystream / plaintext / record body
+// are put on the line.
 
 import (
 	"bytes"
@@ -49,8 +55,24 @@ func ksGen(r *Rng, i int, tier string) string {
 	if c.Weak {
 		weak = 1
 	}
-	return fmt.Sprintf("vers=%d suite=%d client=%s weak=%d cdyn=%d sdyn=0 tick=%d ds=%d pre=%d ku=%d calls=%d len=%d plen=%d", c.Vers, c.Suite, kind, weak,
-		r.Intn(3)/2, r.Intn(2), r.U64()%1000000, pre, ku, 1+r.Intn(3)/2*r.Intn(3), klen, plen)
+	// further rounds on the same connection: same length as the first call (most often), or another
+	var rounds []string
+	for j, nr := 0, r.Intn(5); j < nr; j++ {
+		n := klen
+		if r.Intn(3) == 0 {
+			n = Pick(r, []int{0, 1, 16, 17, 64, 100, 1200, r.Intn(300)})
+		}
+		rounds = append(rounds, fmt.Sprintf("%d:%d", n, Pick(r, []int{1, 2, 16, 90, 100, 1 + r.Intn(400), 1 + r.Intn(3000)})))
+	}
+	return fmt.Sprintf("vers=%d suite=%d client=%s weak=%d cdyn=%d sdyn=0 tick=%d ds=%d pre=%d ku=%d calls=%d len=%d plen=%d rounds=%s", c.Vers, c.Suite, kind, weak,
+		r.Intn(3)/2, r.Intn(2), r.U64()%1000000, pre, ku, 1+r.Intn(3)/2*r.Intn(3), klen, plen, joinList(rounds))
+}
+
+func ksCut(b []byte, n int) []byte {
+	if len(b) > n {
+		return b[:n]
+	}
+	return b
 }
 
 func ksExec(in KV) string {
@@ -125,6 +147,37 @@ func ksExec(in KV) string {
 		}
 	}
 	s2 := p.c.state()
+	// further (GetOutKeystream, write) rounds on the same connection
+	var rres []string
+	for _, rd := range splitList(in["rounds"]) {
+		var n, pl int
+		fmt.Sscanf(rd, "%d:%d", &n, &pl)
+		b0 := p.c.state()
+		rks, rerr := p.u.GetOutKeystream(n)
+		b1 := p.c.state()
+		rpt := data.Bytes(pl)
+		p.c.take()
+		if _, err := p.c.rw.Write(rpt); err != nil {
+			rres = append(rres, "werr:"+recErrClass(err))
+			break
+		}
+		ch := p.c.take()
+		okPeer := 0
+		g := make([]byte, len(rpt))
+		if _, err := io.ReadFull(p.s.rw, g); err == nil && bytes.Equal(g, rpt) {
+			okPeer = 1
+		}
+		var rec0 []byte
+		if len(ch) > 0 {
+			rec0 = ch[0]
+		}
+		ke := "ok"
+		if rerr != nil {
+			ke = "err"
+		}
+		rres = append(rres, fmt.Sprintf("%d/%s/%d/%d/%d/%d/%d/%s/%s/%s", len(rks), ke, b0.Out.Seq, b1.Out.Seq, len(rec0), len(ch), okPeer,
+			hx(ksCut(rks, 80)), hx(ksCut(rpt, 80)), hx(ksCut(rec0, 5+16+80))))
+	}
 	kerrS := "ok"
 	if kerr != nil {
 		kerrS = "err"
@@ -138,8 +191,8 @@ func ksExec(in KV) string {
 		bytes.Equal(s0.Out.Secret, s1.Out.Secret) && s0.Out.Kind == s1.Out.Kind && s0.Out.Err == s1.Out.Err {
 		same = 1
 	}
-	return fmt.Sprintf("out=ok %s seq0=%d seq1=%d seq2=%d pkts=%d bytes=%d same=%d kerr=%s klen=%d ks=%s p=%s lens=%s rec=%s peer=%d echo=%d again=%d againn=%d",
-		params, s0.Out.Seq, s1.Out.Seq, s2.Out.Seq, s0.PacketsSent, s0.BytesSent, same, kerrS, len(ks), hx(ks), hx(pt), chunkLens(chunks), hx(first), peer, echo, again, againN)
+	return fmt.Sprintf("out=ok %s seq0=%d seq1=%d seq2=%d pkts=%d bytes=%d same=%d kerr=%s klen=%d ks=%s p=%s lens=%s rec=%s peer=%d echo=%d again=%d againn=%d rres=%s",
+		params, s0.Out.Seq, s1.Out.Seq, s2.Out.Seq, s0.PacketsSent, s0.BytesSent, same, kerrS, len(ks), hx(ks), hx(pt), chunkLens(chunks), hx(first), peer, echo, again, againN, joinList(rres))
 }
 
 func init() {
